@@ -44,6 +44,11 @@ FILTERS = {
     "m_or": [("matching", [("dA", None, {"x": "b"}), ("dA", None, {"y": "7"}), ("dB", "s1", {"x": "a"})])],
     "chain_m_m": [("matching", [("dA", None, {}), ("dB", None, {}), ("dC", None, {})]),
                   ("matching", [("dB", None, {"x": "a"}), ("dC", None, {"x": "a"}), ("dA", "s1", {"x": "b"})])],
+    # two matching filters that BOTH depend on the inputs: the second sees a different sub-list for different jobs
+    "chain_mx_my": [("matching", [("dA", None, {"x": "a"}), ("dB", None, {"x": "b"}), ("dC", None, {})]),
+                    ("matching", [("dA", None, {"y": "8"}), ("dB", None, {"y": "7"}), ("dC", None, {"y": "7"})])],
+    "chain_mx_mx": [("matching", [("dA", None, {"x": "b"}), ("dB", None, {}), ("dC", None, {"x": "a"})]),
+                    ("matching", [("dB", None, {"x": "a"}), ("dC", None, {}), ("dA", None, {"y": "7"})])],
     "chain_pass_m": [("verif_pass", None), ("matching", [("dA", None, {"x": "a"}), ("dC", None, {"x": "a"})])],
     "chain_m_pass": [("matching", [("dB", None, {"y": "7"}), ("dC", None, {"y": "7"})]), ("verif_pass", None)],
 }
@@ -74,7 +79,7 @@ def ref_survivors(targets, chain, inputs):
     return cur
 
 
-async def run_one(targets, chain_name, in_name, blocked, gated=False):
+async def run_one(targets, chain_name, in_name, blocked, gated=False, prev=None):
     connectors = {d: FakeConnector(d, locations={"l0": {"slots": 1}}, gated=gated) for d in ("dA", "dB", "dC")}
     ctx = SimpleNamespace(deployment_manager=FakeDeploymentManager(connectors), data_manager=FakeDataManager())
     sched = DefaultScheduler(ctx, retry_delay=0)
@@ -92,8 +97,28 @@ async def run_one(targets, chain_name, in_name, blocked, gated=False):
             filters.append(FilterConfig(name=f"f{i}", type="matching", config={"filters": [
                 {"target": ({"deployment": rd, "service": rs} if rs else rd),
                  "job": [{"port": p, "match": m} for p, m in preds.items()]} for rd, rs, preds in rules]}))
+    if prev is not None:
+        # history: an earlier job of the SAME step, with other input values, went through the same scheduler (and the same
+        # filter instances) and has completed; the placement of the job under test must not depend on it
+        pj = Job(name="/step/0", workflow_id=1, inputs={k: Token(v) for k, v in INPUTS[prev].items()}, input_directory="/i",
+                 output_directory="/o", tmp_directory="/t")
+        pt = asyncio.ensure_future(sched.schedule(pj, BindingConfig(targets=tobjs, filters=filters), None))
+        for _ in range(60):
+            await asyncio.sleep(0)
+            if pt.done():
+                break
+        if not pt.done():
+            pt.cancel()
+            try:
+                await pt
+            except BaseException:  # noqa
+                pass
+        elif pt.exception() is None:
+            await sched.notify_status(pj.name, Status.RUNNING)
+            await sched.notify_status(pj.name, Status.COMPLETED)
     inputs = {k: Token(v) for k, v in INPUTS[in_name].items()}
-    job = Job(name="/step/0", workflow_id=1, inputs=inputs, input_directory="/i", output_directory="/o", tmp_directory="/t")
+    job = Job(name="/step/1" if prev is not None else "/step/0", workflow_id=1, inputs=inputs, input_directory="/i",
+              output_directory="/o", tmp_directory="/t")
     loop = asyncio.get_running_loop()
     if gated:
         loop.mute = False
@@ -179,7 +204,9 @@ def check_chunk(chunk):
     fails, n, distinct = [], 0, set()
     loop = asyncio.new_event_loop()
     try:
-        for targets, chain_name, in_name, blocked in chunk["items"]:
+        for item in chunk["items"]:
+            targets, chain_name, in_name, blocked = item[:4]
+            prev = item[4] if len(item) > 4 else None
             n += 1
             targets = [tuple(t) for t in targets]
             surv = ref_survivors(targets, FILTERS[chain_name], INPUTS[in_name])
@@ -188,18 +215,19 @@ def check_chunk(chunk):
             else:
                 host = [t for t in surv if t[0] not in blocked]
                 want = ("placed", targets.index(host[0])) if host else ("pending", None)
-            got = loop.run_until_complete(run_one(targets, chain_name, in_name, blocked))
-            distinct.add((chain_name, in_name, len(targets), want[0]))
+            got = loop.run_until_complete(run_one(targets, chain_name, in_name, blocked, prev=prev))
+            distinct.add((chain_name, in_name, len(targets), want[0], prev))
             if got != want:
                 if got[0] == "placed" and want[0] == "placed":
                     gt = targets[got[1]]
                     kind = "not-a-survivor" if gt not in (surv or []) else ("cannot-host" if gt[0] in blocked else "not-first")
                 else:
                     kind = f"{want[0]}-expected-{got[0]}"
-                fails.append((f"C13|{kind}|chain={chain_name}",
+                hist = f" after an earlier job of the same step with inputs {INPUTS[prev]}" if prev else ""
+                fails.append((f"C13|{kind}|chain={chain_name}" + ("|after-earlier-job" if prev else ""),
                               f"targets (declared order) {targets}, filters {chain_name}, inputs {INPUTS[in_name]}, busy "
-                              f"deployments {sorted(blocked)}: got {got}, expected {want} (survivors {surv})",
-                              {"targets": targets, "chain": chain_name, "inputs": in_name, "blocked": sorted(blocked)}))
+                              f"deployments {sorted(blocked)}{hist}: got {got}, expected {want} (survivors {surv})",
+                              {"targets": targets, "chain": chain_name, "inputs": in_name, "blocked": sorted(blocked), "prev": prev}))
     finally:
         loop.close()
     dedup = {}
@@ -219,7 +247,7 @@ def main(argv=None):
             for k, m in out.failures:
                 print(f"VIOLATION property={PROP} replay={args.replay}\n  {k}: {m}")
             return 1 if out.failures else 0
-        r = check_chunk({"items": [(p["targets"], p["chain"], p["inputs"], set(p["blocked"]))]})
+        r = check_chunk({"items": [(p["targets"], p["chain"], p["inputs"], set(p["blocked"]), p.get("prev"))]})
         for k, m, _ in r.failures:
             print(f"VIOLATION property={PROP} replay={args.replay}\n  {k}: {m}")
         return 1 if r.failures else 0
@@ -236,6 +264,18 @@ def main(argv=None):
                         items.append((list(targets), chain, inp, b))
     if quick:
         items = [it for i, it in enumerate(items) if len(it[0]) <= 3 or i % 3 == 0]
+    # histories: the same placement question after an earlier job of the same step with (other) input values
+    hist = []
+    for k in ((2, 3) if quick else (1, 2, 3)):
+        for targets in itertools.permutations(pool[:3] if quick else pool, k):
+            for chain in FILTERS:
+                if chain in ("none", "pass"):
+                    continue
+                for inp in INPUTS:
+                    for prev in INPUTS:
+                        for b in (bl[:2] if quick else bl):
+                            hist.append((list(targets), chain, inp, b, prev))
+    items += hist
     size = max(1, len(items) // 256)
     chunks = [{"items": items[i:i + size]} for i in range(0, len(items), size)]
     enumr.run_enum(rep, f"checks.{PROP}", chunks, workers=args.workers)
@@ -255,7 +295,7 @@ def main(argv=None):
     rep.coverage["distinct_nontrivial"] = e3["distinct_nontrivial"] + len(stats.signatures)
     rep.coverage["exhaustive"] = bool(e3["exhaustive"] and completed >= lb)
     rep.coverage["rule"] = (
-        "every declared ORDER (all permutations) of 1..4 targets from a pool of (deployment, service) pairs x 9 filter "
+        "every declared ORDER (all permutations) of 1..4 targets from a pool of (deployment, service) pairs x 11 filter "
         "chains (none, pass-through, matching filters with 1..3 rules, 0..2 predicates, service rules, OR rules, "
         "chains of two) x 3 job input valuations x busy-deployment subsets, scheduled on the real DefaultScheduler "
         "(FIFO event loop); PLUS, for 2..3 targets, a controlled loop on which every connector's get_available_locations "
